@@ -26,6 +26,9 @@ CHECKS = {
  "C16": dict(design="5/C16", technique="TLA+ Template spec (row-space equality by exact integer elimination, Fits, constraint predicates) evaluated by TLC on every schedule yielded by the real scheduler and on matcher inputs",
    text="On every schedule the real scheduler_backtrack yields (all results): Fits(template, schedule) (same index subspace per operand on the innermost dims, bounds within template bounds) and the requested constraints (pure output stationary, memory flexibility) as Template.tla defines them; plus TemplatePattern.matches(sp) <=> PatMatches (row-space equality) on random integer patterns.",
    note="The real matcher is floating-point SVD (tol 1e-10); equivalence is claimed for integer entries in -2..3."),
+ "C09": dict(design="5/C09", technique="TLA+ Layout spec (Injective, shape coverage) evaluated by TLC on every layout the real set-memory-layout pass chooses",
+   text="Generated dart.schedule ops (snax_alu/snax_gemmx; any loop order; tiled, sliding-window, reduction, broadcast dims; shapes only partly covered by the schedule; i8..i64) are pushed through the real set-memory-layout in both modes; TLC (ObjCheck.tla ChosenLayout) enumerates the whole operand box of every chosen layout: per-dimension bound products equal the shape and Addr is injective; operands with an explicit layout must leave the IR untouched.",
+   note="Operand boxes <= 1500 elements."),
 }
 NA_REASON = "check not built yet in this round (planned: see DESIGN.md section 5); will be claimed once its TLA+ module and binding exist"
 def main():
